@@ -57,6 +57,7 @@ def equations(cfg, rng, n):
 
 
 def run(rec, cfg):
+    rec.accept = {"equation"}
     MR.CHECKS.update({"equation"})
     MR.attach_apply()
     rng = cfg.rng("c02")
